@@ -78,9 +78,10 @@ class LP_Solver:
             self.extra_constraints, 
             self.optimisation_options)
 
+        self.num_solves = 0
         self.run_optimisations(self.optimisation_options)
 
-        if len(self.optimisation_options) == 0:
+        if self.num_solves == 0:
             self.prob.solve(self.solver)
 
         self.model.info_string = self.info_string
@@ -506,6 +507,7 @@ class LP_Solver:
 
         '''
 
+        self.num_solves += 1
         if optimisation_type == Optimisation_type.MAXIMISE:
             self.prob.objective = objective_function
             self.prob.solve(self.solver)
